@@ -1355,8 +1355,9 @@ def run_shard(ctx, spec):
     ctx.hyp(strategy(spec['max_entries'], salt=ctx.shard), spec['n'])
 
 
-_GATES = [('k:function', 0.06), ('k:callback', 0.05), ('k:struct', 0.5), ('k:union', 0.05), ('k:enum', 0.05), ('k:flags', 0.06),
-          ('k:object', 0.8), ('k:interface', 0.8), ('k:constant', 0.06), ('odd-interface-count', 0.25),
+_GATES = [('k:function', 0.08), ('k:callback', 0.08), ('k:struct', 0.5), ('k:union', 0.08), ('k:enum', 0.08), ('k:flags', 0.08),
+          ('k:object', 0.8), ('k:interface', 0.8), ('k:constant', 0.08), ('union-fields-and-methods', 0.03),
+          ('odd-interface-count', 0.25),
           ('odd-prerequisite-count', 0.5), ('rich-compound', 1.0), ('struct-field-callback', 0.4),
           ('struct-field-callback-before-methods', 0.3), ('object-field-callback-before-sections', 0.06), ('enum-methods', 0.08),
           ('attributes-present', 0.8), ('attribute-lookup-on-non-first-node', 0.8), ('attr-on:entry', 0.5),
